@@ -34,7 +34,7 @@ Proof.
   - apply acts_other with s w; simpl; intros; upd_simpl; auto. simpl.
     pose proof (HS w) as H. rewrite Hc in H. simpl in H. inversion H; auto.
   - pose proof (HS w) as Hw0.
-    destruct He as [i a t rest Hsrc Hc Hb | Hsrc Hc | i Hsrc Hc Hb Hcl | ctl' Hcn
+    destruct He as [i a t rest Hsrc Hc Hb | Hsrc Hc | i Hsrc Hc Hb Hcl | ctl' Hcn Hdue Hsl Hsls
                    | eof a k0 v rest Hc Hs0 Hcl | eof k0 t r rest Hc Hb | dropped Hp Hnd Hnr Hnc Hwhy | eof a k0 v rest Hc Hs0 Hcl].
     + apply acts_other with s w; simpl; intros; upd_simpl; auto. apply acts_take.
     + apply acts_other with s w; simpl; intros; upd_simpl; auto. apply acts_take.
